@@ -18,6 +18,8 @@ RULE = ('(1) primitives: every string over a 14-letter hostile alphabet up to le
         'conf.registerGlobalValue/registerNetworkValue/registerChannelValue, settings made in generation 0, then k times: load the previous file into registry._cache, '
         'register again, optionally read some values, save -- the saved lines and the values read are compared with the model (loader cache + registration scan) and '
         'between generations (a session that sets nothing must save what it loaded); one history runs on the real supybot.conf tree with one process per session. '
+        '(9) the plugin API: histories of PluginMixin.setRegistryValue / registryValue (both networks live, one not connected, channels and a non-channel) on a fresh '
+        'channel variable of the real conf.supybot.plugins tree; every (network, channel) pair is read back and the node names of the saved file are checked. '
         '(8) reload in the running bot: histories with set / read / reset (the Config plugin reset commands, re-stated) / save / reload (open_registry without clear) '
         'and the API route (node._setValue(parent.value, inherited=True), with the parent changing afterwards) inside a session and across restarts, on the real conf.registerChannelValue; saved lines and values read are compared with the timestamp model; directly: a value '
         'that was reset is not written again unless it is set again or a file that still has it is re-read. '
@@ -1313,6 +1315,133 @@ WITNESS_F29 = {'op': 'tgens', 'vars': [{'ns': ['reply', 'mores', 'maximum'], 'fl
 
 
 
+# ---------------------------------------------------------------- (9) the plugin API: setRegistryValue / registryValue
+API_PLUGIN = 'VerifC15'
+API_LIVE = ['neta', 'netb']          # networks with a live Irc object; 'netc' has none
+API_NETS = ['neta', 'netb', 'netc', None]
+API_CHANS = ['#a', '#b', 'notachannel', None]
+API_VALUES = {'registry.String': ['x', 'y', 'it\'s', '', 'a b'], 'registry.Boolean': [True, False], 'registry.Integer': [0, 5, -3]}
+_API_N = [0]
+
+
+class _FakePlugin:
+    def name(self):
+        return API_PLUGIN
+
+
+def run_api(ctx, inp, mo):
+    """history through PluginMixin.setRegistryValue / registryValue on a fresh channel variable of the real
+    conf.supybot.plugins tree.  Direct oracle: a write lands on exactly the node asked for -- afterwards every
+    (network, channel) pair reads the most specific setting in force, and the saved file names exactly those nodes"""
+    m = mods()
+    r, conf = m.registry, m.conf
+    import supybot.callbacks as callbacks
+    q = inp['cls']
+    fakes = [FakeIrc(n) for n in API_LIVE]
+    m.world.ircs.extend(fakes)
+    _API_N[0] += 1
+    var = 'v%d' % _API_N[0]
+    fails, outs = [], []
+    plug = _FakePlugin()
+    try:
+        with keep_cache():
+            r._cache.data.clear()
+            pg = conf.registerPlugin(API_PLUGIN)
+            base = conf.registerChannelValue(pg, var, cls_of(q)(default_of(q), ''))
+            base.setValue(py_value(inp['init']))
+            spec = {('g',): inp['init']}
+
+            def exact(net, chan):
+                return ('nc', net, chan) if net and chan else (('n', net) if net else (('c', chan) if chan else ('g',)))
+
+            def resolve(net, chan):
+                chan = chan if chan and m.ircutils.isChannel(chan) else None
+                net = net if net and net.lower() in API_LIVE else None
+                a = exact(net, chan)
+                if a[0] == 'nc':
+                    for k in (a, ('n', net), ('c', chan), ('g',)):
+                        if k in spec:
+                            return spec[k]
+                return spec.get(a, spec[('g',)])
+            for i, o in enumerate(inp['ops']):
+                try:
+                    if o[0] == 'wreg':
+                        callbacks.PluginMixin.setRegistryValue(plug, var, py_value(o[3]), channel=o[2], network=o[1])
+                        spec[exact(o[1], o[2])] = o[3]
+                        outs.append(('ok', o[3]))
+                    else:
+                        got = canon(q, callbacks.PluginMixin.registryValue(plug, var, channel=o[2], network=o[1]))
+                        outs.append(('ok', got))
+                        want = resolve(o[1], o[2])
+                        if got != want and not fails:
+                            fails.append('op %d: registryValue(network=%r, channel=%r) = %r, the settings written say %r' % (i, o[1], o[2], got, want))
+                except r.InvalidRegistryValue:
+                    outs.append(('raise', 'InvalidRegistryValue'))
+            # the saved file names exactly the nodes written
+            r.close(base, m.fn)
+            names = sorted(l.split(': ', 1)[0] for l in file_lines(m.fn))
+            want_names = sorted(r.join(['supybot', 'plugins', API_PLUGIN, var] + ([] if k == ('g',) else ([k[1]] if k[0] == 'c' else ([':' + k[1]] if k[0] == 'n' else [':' + k[1], k[2]]))))
+                                for k in spec if k != ('g',))
+            if names != want_names and not fails:
+                fails.append('the saved file has the nodes %r, the nodes written are %r' % (names, want_names))
+            pg.unregister(var)
+    finally:
+        for f in fakes:
+            m.world.ircs.remove(f)
+    if mo is not None:
+        mm = [wire.r(x, lambda pv_: canon_model(q, pv_)) for x in mo]
+        if mm != outs and ('raise', 'OtherError') not in mm:
+            ctx.disagree(inp, mm, outs, 'plugin API history outcomes')
+    return fails
+
+
+def api_wire(inp):
+    q = inp['cls']
+    ops = []
+    for o in inp['ops']:
+        if o[0] == 'wreg':
+            ops.append([0, o[1] or '', o[2] or '', to_wire_pv(o[3])])
+        else:
+            ops.append([1, o[1] or '', o[2] or ''])
+    return [10, [wire_kind(q), to_wire_pv(canon(q, default_of(q))), to_wire_pv(inp['init']), API_LIVE, ops]]
+
+
+def check_api(ctx, inp, mo):
+    ctx.case('plugin-api', inp)
+    fails = run_api(ctx, inp, mo)
+    if fails:
+        ctx.fail(inp, fails[0])
+
+
+def gapi(rng):
+    q = rng.choice(sorted(API_VALUES))
+    cz = lambda v: canon(q, v)
+    ops = []
+    for _ in range(rng.randint(1, 5)):
+        net, chan = rng.choice(API_NETS), rng.choice(API_CHANS)
+        if rng.random() < 0.6:
+            ops.append(['wreg', net, chan, cz(rng.choice(API_VALUES[q]))])
+        else:
+            ops.append(['rreg', net, chan])
+    for net in ('neta', 'netb', 'netc', None):
+        for chan in ('#a', '#b', None):
+            ops.append(['rreg', net, chan])
+    return {'op': 'api', 'cls': q, 'init': cz(rng.choice(API_VALUES[q])), 'ops': ops}
+
+
+CORPUS_API = [
+    # network+channel write seen from a second network with a channel of the same name
+    {'op': 'api', 'cls': 'registry.String', 'init': [0, 'general'],
+     'ops': [['wreg', 'neta', '#a', [0, 'x']], ['rreg', 'netb', '#a'], ['rreg', 'neta', '#a'], ['rreg', None, '#a'], ['rreg', None, None]]},
+    # a write for a network without a live Irc object must not touch the general value
+    {'op': 'api', 'cls': 'registry.Integer', 'init': [2, 1],
+     'ops': [['wreg', 'netc', None, [2, 7]], ['rreg', None, None], ['rreg', 'neta', None], ['rreg', 'neta', '#a']]},
+    {'op': 'api', 'cls': 'registry.Boolean', 'init': [1, False],
+     'ops': [['wreg', None, '#a', [1, True]], ['wreg', 'netb', None, [1, True]], ['rreg', 'neta', '#a'], ['rreg', 'netb', '#b'], ['rreg', 'neta', '#b']]},
+]
+
+
+
 # ---------------------------------------------------------------- generators
 def gstr(rng, maxlen=8, alpha=None):
     alpha = alpha or (ALPHA + EXTRA)
@@ -1592,6 +1721,13 @@ def _run(ctx):
     for g, mo in zip(gl, outs):
         check_gens(ctx, g, mo)
     check_real_gens(ctx, {'op': 'real_gens', 'cases': REAL_CASES, 'sessions': 3})
+    # (9) the plugin API
+    al = list(CORPUS_API)
+    for _ in range(ctx.n(150)):
+        al.append(gapi(rng))
+    outs = ctx.model([api_wire(g) for g in al])
+    for g, mo in zip(al, outs):
+        check_api(ctx, g, mo)
     # (8) reload in the running bot, reset, timestamps
     tl = list(CORPUS_TGENS) + [WITNESS_F29]
     for i in range(ctx.n(120)):
@@ -1629,6 +1765,8 @@ def replay(ctx, inp):
         do_reload(sub, inp)
     elif op == 'tree':
         check_tree(sub, inp, None)
+    elif op == 'api':
+        check_api(sub, inp, None)
     elif op == 'tgens':
         check_tgens(sub, inp, None)
     elif op == 'norm':
@@ -1641,6 +1779,9 @@ def replay(ctx, inp):
 
 
 def shrink(ctx, inp):
+    if inp.get('op') == 'api':
+        ops = shrink_seq(inp['ops'], lambda o: replay(ctx, dict(inp, ops=o)) is not None, budget=80)
+        return dict(inp, ops=ops)
     if inp.get('op') == 'tgens':
         cur = inp
         for g in range(len(cur['gens']) - 1, 0, -1):
